@@ -55,6 +55,25 @@ def scripts(r, tier, idx, of):
                 yield {"path": path, "consumer": consumer, "first": 0 if r.random() < 0.9 else None, "notifs": [{"v": v, "gap": g, "type": r.choice(["NON", "CON"])} for v, g in zip(perm, gaps)], "term": term, "term_pos": r.randrange(0, len(perm) + 1), "term_gap": r.choice([0.0, 1e-6, 1.0]), "trail": 2, "class": "perm"}
 
 
+def window_script(r):
+    """accepted notification, then stale / duplicate stragglers inside the 128 s window, then notifications that are
+    fresh only by the time clause (counter reset): the window is measured from the last ACCEPTED one"""
+    base = r.choice([100, 5000, 2**23 + 50, 2**24 - 10])
+    notifs = [{"v": base, "gap": 1.0, "type": r.choice(["NON", "CON"])}]
+    t_since = 0.0
+    for _ in range(r.randrange(1, 4)):
+        g = r.choice([30.0, 60.0, 100.0, 127.0 - t_since if t_since < 100 else 1.0])
+        g = max(0.5, min(g, 127.5 - t_since))
+        t_since += g
+        notifs.append({"v": (base - r.randrange(0, 20)) % 2**24, "gap": g, "type": r.choice(["NON", "CON"])})
+    # first one that is only fresh because more than 128 s passed since the accepted one
+    g = 128.5 - t_since + r.choice([0.0, 5.0, 20.0])
+    low = r.randrange(0, 50)
+    notifs.append({"v": (base - 80 - low) % 2**24, "gap": g, "type": r.choice(["NON", "CON"])})
+    notifs.append({"v": (base - 79 - low) % 2**24, "gap": r.choice([1.0, 10.0]), "type": r.choice(["NON", "CON"])})
+    return {"path": r.choice(["raw", "default"]), "consumer": r.choice(["cb", "iter"]), "first": (base - 1) % 2**24, "notifs": notifs, "term": "none", "term_pos": 0, "term_gap": 1.0, "trail": 0, "class": "window"}
+
+
 def random_script(r):
     n = r.randrange(1, 9)
     base = r.choice([0, 1000, 2**23 - 3, 2**24 - 4])
@@ -352,7 +371,7 @@ def run_shard(shard, rep, only=None):
         if n <= 1 and shard["index"] == 0:
             rep.sample({"class": "permutation-script", "script": sc})
     for k in range(shard["extra"]):
-        sc = random_script(r)
+        sc = window_script(r) if k % 3 == 0 else random_script(r)
         case = ["rand", k]
         if only is not None and only != case:
             continue
